@@ -20,7 +20,7 @@ CLAIMS = {
             "correspondence; Spec.Decode as my reading of ISO 18004 clause 11 (no error correction: exact agreement).",
             "Lean 4 theorem C01_roundtrip (symbolic, all inputs; tier K/N finite checks on regenerated tables) + reference decoder in Lean run on real symbols"),
     "C02": ('proof',
-            "Lean 4: C02_built (proved end to end) — for EVERY input and legal option set, on the symbol the model of build returns the ISO reference decoder reads level/version, the codeword sequence it reads out splits into exactly the ISO Table 9 blocks (number, data sizes, EC count), the remainder bits are zero, and every block data++EC has all-zero syndromes at alpha^0..alpha^(ec-1) over GF(256)/0x11D; C02_blocks_any: the same split for ANY data buffer. Ingredients: C02_layout (ecc_to_groups = ISO Table 9, generator degree, codeword sums; decide +kernel over all 160 regenerated rows), C02_syndromes — for every version, level and EVERY content of a Table 9-sized block, data ++ EC (as computed by the model of division with the crate's generator) has all-zero syndromes at alpha^0..alpha^(ec-1): table product = field product, division loop = schoolbook remainder, remainder modulo prod(x - alpha^i) vanishes at the roots (field laws derived from the shift-and-xor definition). Spec verdict on every real symbol: Table 9 split, zero remainder bits, all syndromes zero. The recovery corollary is cited (BCH bound), not proved.",
+            "Lean 4: C02_built (proved end to end) — for EVERY input and legal option set, on the symbol the model of build returns the ISO reference decoder reads level/version, the codeword sequence it reads out splits into exactly the ISO Table 9 blocks (number, data sizes, EC count), the remainder bits are zero, and every block data++EC has all-zero syndromes at alpha^0..alpha^(ec-1) over GF(256)/0x11D; C02_blocks_any: the same split for ANY data buffer. Ingredients: C02_layout (ecc_to_groups = ISO Table 9, generator degree, codeword sums; decide +kernel over all 160 regenerated rows), C02_syndromes — for every version, level and EVERY content of a Table 9-sized block, data ++ EC (as computed by the model of division with the crate's generator) has all-zero syndromes at alpha^0..alpha^(ec-1): table product = field product, division loop = schoolbook remainder, remainder modulo prod(x - alpha^i) vanishes at the roots (field laws derived from the shift-and-xor definition). Spec verdict on every real symbol: Table 9 split, zero remainder bits, all syndromes zero. C02_recovery / C02_min_distance: the BCH bound is PROVED from the shift-and-xor field definition (no zero divisors, alpha of order 255, Vandermonde elimination): minimum distance ec+1, so every block of every built symbol is the unique zero-syndrome word within floor(ec/2) errors of any received word within floor(ec/2) of it — the word every bounded-distance RS decoder returns.",
             'Trusted: Lean kernel (+ propext, Classical.choice, Quot.sound); table translator; ISO Table 9 transcription. Interleaving order = ISO order: tier N checker interleaveOk.',
             'Lean 4 symbolic algebra over GF(256) + decide +kernel on regenerated tables + syndrome check of real symbols'),
     "C03": ('proof',
